@@ -87,6 +87,18 @@ def gen_font(rng, n):
                                     (-16384, 0, 6144, 12288), (8192, 8192, -8192, 8192)])
                     second = second + m
                 g = {"name": "g%d" % i, "adv": 700, "components": [(a, 0, 0), second]}
+                if a != b and rng.random() < 0.25:
+                    # the second component placed by point matching: point pa of the first component (the composite so
+                    # far) and point pb of the second coincide; the arguments are unsigned point numbers
+                    na = len([p for c in glyphs[a]["contours"] for p in c])
+                    nb = len([p for c in glyphs[b]["contours"] for p in c])
+                    g = {"name": "g%d" % i, "adv": 700, "components": [(a, 0, 0), (b, rng.randrange(na), rng.randrange(nb)) + second[3:]],
+                         "match_points": True}
+                    if rng.random() < 0.5:
+                        g["byte_args"] = True
+                    glyphs.append(g)
+                    cmap[0x61 + i - 2] = i
+                    continue
                 if rng.random() < 0.4:
                     # offsets that fit a signed byte, written as bytes (ARG_1_AND_2_ARE_WORDS clear), often negative
                     second = (b, rng.randint(-128, 127), rng.randint(-128, 127)) + second[3:]
